@@ -1,5 +1,5 @@
 CONSTANTS K = 4
-PHS = {1, 2, 7}
+PHS = {1, 2}
 KMAX = 2
 SCALARS <- ScOne
 INIT Init
